@@ -72,6 +72,11 @@ def ham(T, x, p):
     return -T.logp(x) + dot(p, p) * HALF
 
 
+def RP_HMC(model):
+    import m_replay
+    return m_replay.replay_hmc()
+
+
 def c02_hmc_step(out, tier, seed):
     eng = mir_load.load_engine()
     mirsym.MUL_MODE["mode"] = "uf"
@@ -126,7 +131,7 @@ def c02_hmc_step(out, tier, seed):
                     for i in range(d):
                         want = ite(acc, x1[i], X[r][i])
                         u.equal(ctx, "each chain ends at its L-step leapfrog end point iff ln u <= H(x,p) - H(x',p'), else at its old position",
-                                newpos[r, i], want, None, inst)
+                                newpos[r, i], want, RP_HMC, inst)
                         own = set(str(v.z()) for v in X[r] + p + [unis[-n:][r], eps])
                         used = set(str(v) for v in z3util_vars(Num.of(newpos[r, i]).z()))
                         u.holds(ctx, "rows of the batch never influence one another", used <= own, None, inst)
@@ -179,8 +184,8 @@ def c02_reversible(out, tier, seed):
             inst = "chains=%d dim=%d L=%d" % (n, d, L)
             for r in range(n):
                 for i in range(d):
-                    u.equal(ctx, "integrating again from (x', -p') returns to the start position", x2[r, i], X[r][i], None, inst)
-                    u.equal(ctx, "integrating again from (x', -p') returns to the negated start momentum", p2[r, i], -P[r][i], None, inst)
+                    u.equal(ctx, "integrating again from (x', -p') returns to the start position", x2[r, i], X[r][i], RP_HMC, inst)
+                    u.equal(ctx, "integrating again from (x', -p') returns to the negated start momentum", p2[r, i], -P[r][i], RP_HMC, inst)
     u.done()
 
 
